@@ -5,6 +5,7 @@ package veriffsn
 import (
 	"path/filepath"
 	"sync"
+	"time"
 )
 
 type Op uint32
@@ -35,6 +36,16 @@ func NewWatcher() (*Watcher, error) {
 func WaitCreated() *Watcher {
 	<-created
 	return Current
+}
+
+// WaitCreatedFor is WaitCreated with a limit: nil if no watcher has been created by then.
+func WaitCreatedFor(d time.Duration) *Watcher {
+	select {
+	case <-created:
+		return Current
+	case <-time.After(d):
+		return nil
+	}
 }
 
 func (w *Watcher) Add(dir string) error {
